@@ -23,6 +23,7 @@ ENCODED = [
 ]
 
 M_DEFAULT = {'api': 'to_graph', 'recursive': True}
+M_LISTS = {'api': 'to_graph', 'recursive': True, 'features': ['LISTS']}
 M_CONVERT = {'api': 'convert', 'recursive': True}
 M_NONREC = {'api': 'to_graph', 'recursive': False}
 M_FEATS = {'api': 'to_graph', 'recursive': True, 'features': ['BUILTIN_FUNCTIONS', 'EQUALITY_OPERATORS']}
@@ -126,10 +127,60 @@ EXTRA = [
 ]
 EXTRA_GLOBS = {'x:global_and_list_arg': {'G': 0}}
 
+# Witness programs of the listed known findings (known_findings.json): each is
+# run with exactly the mode that exhibits the finding, so the KNOWN-FINDING line
+# is re-established on every run instead of being assumed.
+WITNESS = [
+    ('w:chained_cmp', M_DEFAULT, '''def f(x, n, b, xs):
+  a = 0
+  if 0 <= t(1, x) < 3:
+    a = 1
+  return a
+'''),
+    ('w:lists_closure_append', M_LISTS, '''def f(x, n, b, xs):
+  l = [0]
+  def h(p):
+    l.append(p)
+    return p
+  a = h(x)
+  return (a, l)
+'''),
+]
+
+
+def _effectful_chain(src):
+  import ast
+  for node in ast.walk(ast.parse(src)):
+    if isinstance(node, ast.Compare) and len(node.ops) >= 2:
+      for mid in node.comparators[:-1]:
+        if any(isinstance(k, ast.Call) for k in ast.walk(mid)):
+          return True
+  return False
+
+
+def _append_on_enclosing_list(src):
+  import ast
+  for fn in ast.walk(ast.parse(src)):
+    if isinstance(fn, ast.FunctionDef):
+      for inner in ast.walk(fn):
+        if inner is not fn and isinstance(inner, ast.FunctionDef):
+          assigned = {n.id for n in ast.walk(inner) if isinstance(n, ast.Name) and isinstance(n.ctx, ast.Store)}
+          params = {a.arg for a in inner.args.args}
+          for c in ast.walk(inner):
+            if (isinstance(c, ast.Call) and isinstance(c.func, ast.Attribute) and c.func.attr == 'append'
+                and isinstance(c.func.value, ast.Name) and c.func.value.id not in assigned | params):
+              return True
+  return False
+
 
 def classify(p, m, r):
   """Structural patterns of a violation (fixed vocabulary, see known_findings.json)."""
   tags = set()
+  if r.get('kind') == 'mismatch' and _effectful_chain(p.src):
+    tags.add('chained_comparison_effectful_middle_operand')
+  if (r.get('kind') == 'mismatch' and 'LISTS' in (m.get('features') or ())
+      and _append_on_enclosing_list(p.src)):
+    tags.add('lists_feature_append_rebinds_nonlocal_list')
   if r.get('kind') == 'conversion_error':
     tags.add('conversion_error')
     conv = r.get('conv') or {}
@@ -151,6 +202,7 @@ def programs(tier, seed):
     progs = sk + rnd.sample(sk3, 900)
     progs += gen.random_programs(500, seed) + gen.random_programs(150, seed + 1, max_depth=4, max_stmts=7)
   progs += [gen.Prog(n, s, {'extra'}, EXTRA_GLOBS.get(n)) for n, s in EXTRA]
+  progs += [gen.Prog(n, s, {'witness'}) for n, _, s in WITNESS]
   return progs
 
 
@@ -160,7 +212,11 @@ def run(tier):
   bounds = {'n': 3, 'len': 2}
   rnd = random.Random(R.seed + 17)
 
+  wmode = dict((n, m) for n, m, _ in WITNESS)
+
   def mode_for(p):
+    if p.name in wmode:
+      return [wmode[p.name]]
     ms = [M_DEFAULT]
     q = rnd.random()
     if 'extra' in p.tags or q < 0.15:
@@ -169,7 +225,7 @@ def run(tier):
       ms.append(M_NONREC)
     elif q < 0.35:
       ms.append(M_FEATS)
-    elif q < 0.40:
+    elif q < 0.45 and not ({'def', 'listops'} <= p.tags):
       ms.append(M_ALL)
     return ms
 
